@@ -232,6 +232,9 @@ def run(ctx):
         ctx.count("encoder_calls")
         ctx.ob("C07.c", w.qual, t is not None and strip(t) == pid, f"{name} serialises self._packet_id", func=w.qual, file=file, construct=f"{name}(...)",
                fail=f"{name} is given `{show(t) if t else None}` instead of the connection's packet counter")
+    # the expiry (and the key) only change once the reply has been verified: otherwise a failed re-handshake re-arms the old session
+    from .c06 import stores_after_proof
+    ctx.count("stores_after_proof", stores_after_proof(ctx, "C07.d", prog))
     # ---------------------------------------------------------------- C07.d lifetimes
     au = ctx.fn(f"{V3}.authenticated")
     aus = summarize(prog, au)
